@@ -101,6 +101,13 @@ func refText(t string) textRef {
 		case 'o', 'O':
 			base = 8
 		}
+		if base == 16 && strings.ContainsAny(s[2:], "pP") {
+			// hexadecimal floating point (C99 / Go syntax): 0x hex[.hex] p [+-]dec
+			if f, ok := refHexFloat(s[2:]); ok {
+				return textRef{kind: txOptional, val: sign(f), class: r.class}
+			}
+			return r
+		}
 		if base != 0 {
 			if v, ok := new(big.Int).SetString(s[2:], base); ok && v.Sign() >= 0 && !strings.ContainsAny(s[2:], "+-_") {
 				f, _ := new(big.Rat).SetInt(v).Float64()
@@ -111,14 +118,14 @@ func refText(t string) textRef {
 	}
 	// digit separators
 	if strings.Contains(s, "_") {
-		parts := strings.Split(s, "_")
-		for _, p := range parts {
-			if !allDigits(p) {
+		// every separator stands between two digits
+		for i := 0; i < len(s); i++ {
+			if s[i] == '_' && (i == 0 || i == len(s)-1 || !allDigits(s[i-1:i]) || !allDigits(s[i+1:i+2])) {
 				return r
 			}
 		}
 		optional = true
-		s = strings.Join(parts, "")
+		s = strings.ReplaceAll(s, "_", "")
 	}
 	// mantissa [e exponent]
 	mant, exp := s, int64(0)
@@ -177,6 +184,56 @@ func refText(t string) textRef {
 	r.kind = txStrict
 	r.constOK = true
 	return r
+}
+
+// refHexFloat: the value of hex[.hex]p[+-]dec (what follows the 0x prefix of a
+// hexadecimal floating-point text): mantissa * 2^exponent.
+func refHexFloat(s string) (float64, bool) {
+	i := strings.IndexAny(s, "pP")
+	mant, es := s[:i], s[i+1:]
+	eneg := false
+	if strings.HasPrefix(es, "-") {
+		eneg, es = true, es[1:]
+	} else if strings.HasPrefix(es, "+") {
+		es = es[1:]
+	}
+	if !allDigits(es) || len(es) > 4 {
+		return 0, false
+	}
+	e, _ := strconv.Atoi(es)
+	ip, fp := mant, ""
+	if j := strings.IndexByte(mant, '.'); j >= 0 {
+		ip, fp = mant[:j], mant[j+1:]
+	}
+	if ip+fp == "" || strings.ContainsAny(ip+fp, "+-_. ") {
+		return 0, false
+	}
+	m, ok := new(big.Int).SetString(ip+fp, 16)
+	if !ok {
+		return 0, false
+	}
+	exp := int64(e)
+	if eneg {
+		exp = -exp
+	}
+	exp -= 4 * int64(len(fp))
+	q := new(big.Rat).SetInt(m)
+	p2 := new(big.Rat).SetInt(new(big.Int).Lsh(big.NewInt(1), uint(abs64(exp))))
+	if exp >= 0 {
+		q.Mul(q, p2)
+	} else {
+		q.Quo(q, p2)
+	}
+	f, _ := q.Float64()
+	return f, true
+}
+
+// twoReadings: an integer text with a redundant leading zero has two natural
+// readings (decimal 17 and C-style octal 15 for "017"); the statement settles
+// neither, so the constant and the bound text are not demanded to agree.
+func twoReadings(t string) bool {
+	s := strings.TrimLeft(strings.Trim(t, " \t\n\r"), "+-")
+	return len(s) > 1 && s[0] == '0' && allDigits(s)
 }
 
 func abs64(x int64) int64 {
@@ -313,6 +370,14 @@ var bindSpecials = []string{
 	"1e5", "1E5", "1e+5", "1e-5", "1.5e3", "1e19", "1e20", "1E20", "-1e20", "1.8446744073709551616e19", "18446744073709551616e0",
 	"1e400", "-1e400", "1e-400", "4.9e-324", "2.4703282292062327e-324", "2.4703282292062328e-324", "1.7976931348623157e308", "1.7976931348623159e308",
 	"2.2250738585072011e-308", "2.2250738585072014e-308",
+	// the special float spellings in every letter case, signed; values beyond float64; hexadecimal floats;
+	// digit separators; octal-looking texts; prefixed integers around 2^63; near misses of inf/nan
+	"INF", "iNf", "Infinity", "INFINITY", "-Inf", "-INF", "-infinity", "+infinity", "NAN", "nAn", "+nan",
+	"1e999", "-1e999", "1e309", "1e308", "1E999",
+	"0x1p4", "0x1P4", "0X1p4", "0x1p-2", "0x1p+2", "0x.8p1", "0x1.8p1", "0xAp1", "0xap0", "-0x1p4", "0x1p", "0x10p", "0xp1", "0x1.8",
+	"1_0", "1__0", "_1", "1_", "0x1_0", "0b1_1", "1_000.5", "0O17", "08", "09", "00", "007", "0017",
+	"0x7fffffffffffffff", "0x8000000000000000", "0xffffffffffffffff", "0xff", "0b0",
+	"infx", "in", "na", "nanx", "infinit", "infinityy", "e1", "p1", "x1", "info", "nano",
 	// decimals with many digits, halfway cases of the rounding to float64
 	"0.1", "0.5", "2.5", "-2.5", "0.30000000000000004", "0.1234567890123456789012345", "3.14159265358979323846264338327950288",
 	"9007199254740992.5", "9007199254740993", "9007199254740993.0000000000000000001", "9007199254740992.9999999999999999999",
@@ -324,6 +389,8 @@ var bindSpecials = []string{
 var bindContexts1 = []string{
 	"%[1]s", "%[1]s + 0", "0 + %[1]s", "%[1]s * 1", "%[1]s - 1", "%[1]s / 2", "%[1]s + 0.5", "-%[1]s", "abs(%[1]s)",
 	"%[1]s > 1000", "%[1]s >= 18446744073709551615", "%[1]s == %[1]s", "2(%[1]s)", "%[1]s ^ 2", "(%[1]s - 18446744073709551616) / 2",
+	// the text as an open bound, a divisor, next to an operator without blanks
+	"5 < %[1]s", "5 < %[1]s && 5 > -%[1]s", "1 / %[1]s", "2*%[1]s", "%[1]s<5",
 }
 
 // two-variable formulas (%[1]s is [0], %[2]s is x)
@@ -504,10 +571,23 @@ func (c *checker) checkBind(format string, spell int, texts []string) (nontrivia
 	} else {
 		c.bindFormulaValue(formula, texts, used, refs, r, class, cs)
 	}
-	// B2: the constant written in place
-	allConst := true
+	// B2: the constant written in place. For a plain decimal the constant form
+	// is demanded; for a text whose numeric reading the statement does not
+	// settle but which THIS tree just read as a number when bound (inf, NaN,
+	// 1e5, 0x1p4, 1_000, .5 ...) the same text as a formula token may be
+	// rejected at compile time, but when the formula compiles it must have the
+	// value of the variable form: by the tree's own account the text is a
+	// number, "Variables are either non-numeric values or keys surrounded by
+	// brackets" (docs/usage/math.md), so the token is a numeric constant, and a
+	// constant equals a variable bound to the same value. No key of that name is
+	// bound, so a token that is looked up as a variable gives the error marker.
+	allConst, lenient := true, false
 	for _, u := range used {
-		if !refs[u].constOK {
+		switch {
+		case refs[u].constOK:
+		case refs[u].kind == txOptional && !twoReadings(texts[u]):
+			lenient = true
+		default:
 			allConst = false
 		}
 	}
@@ -538,6 +618,10 @@ func (c *checker) checkBind(format string, spell int, texts []string) (nontrivia
 		cs.Optimize = opt
 		cr, compiledOK := c.runBind(cformula, []string{"", ""}, opt, cs)
 		if !compiledOK {
+			if lenient {
+				c.w.Add("binding_unsettled_spelling_rejected_as_constant", 1)
+				return true
+			}
 			c.bindViolation("C19/binding/constant-form-rejected/"+class, fmt.Sprintf("template {! %s} does not compile although {! %s} with the variable bound to the same text evaluates to %q", cformula, formula, r.out), cs)
 			return true
 		}
@@ -545,11 +629,18 @@ func (c *checker) checkBind(format string, spell int, texts []string) (nontrivia
 			return true
 		}
 		if cr.isMarker || !sameNumber(cr.val, r.val) {
-			c.bindViolation("C19/binding/constant-vs-variable/"+class, fmt.Sprintf("template {! %s} gives %q but {! %s} with [0]=%q x=%q gives %q", cformula, cr.out, formula, texts[0], texts[1], r.out), cs)
+			sig := "C19/binding/constant-vs-variable/" + class
+			if lenient {
+				sig = "C19/binding/constant-vs-variable/unsettled-spelling/" + class
+			}
+			c.bindViolation(sig, fmt.Sprintf("template {! %s} gives %q but {! %s} with [0]=%q x=%q gives %q", cformula, cr.out, formula, texts[0], texts[1], r.out), cs)
 			return true
 		}
 	}
 	c.w.Add("binding_constant_vs_variable", 1)
+	if lenient {
+		c.w.Add("binding_constant_vs_variable_unsettled_spelling", 1)
+	}
 	return true
 }
 
@@ -676,6 +767,6 @@ func bindRule(quick bool) string {
 	for _, s := range bindSpecials {
 		q = append(q, strconv.Quote(s))
 	}
-	return fmt.Sprintf("binding family (`{! f}` through the stdlib key builder with and without optimisation, BuildKey on match data): %d magnitudes {0 1 2 5 9 10 42 99 100 255 1000 65535; 2^p-2..2^p+2 for p in {%s}; 2^64+{9,10,1000,12345,2^32}; 3*2^64; 5*2^64; 10^k-1,10^k,10^k+1 for k=15..25; {18,19,20,50,90,99}*10^18; 10^k for k in {30,38,100,308,309,400}; 16..25 digits of 9.., 1.., 8.., 1234567890..} each in the forms m -m +m 0m 00m m.0 m.5 -m.25 m. ' m' 'm ' me0 mE+0 -me-1, and the texts {%s}; each text bound to [0], to bare x and to [x] in each of the formulas {%s}; every ordered pair of a pool of %d texts bound to [0] and x in {%s}; oracle: error marker / nearest float64 on the variable alone, the value of the independent parse on the other formulas, and the identical output when the text is written in place as a constant (negative values parenthesised)",
+	return fmt.Sprintf("binding family (`{! f}` through the stdlib key builder with and without optimisation, BuildKey on match data): %d magnitudes {0 1 2 5 9 10 42 99 100 255 1000 65535; 2^p-2..2^p+2 for p in {%s}; 2^64+{9,10,1000,12345,2^32}; 3*2^64; 5*2^64; 10^k-1,10^k,10^k+1 for k=15..25; {18,19,20,50,90,99}*10^18; 10^k for k in {30,38,100,308,309,400}; 16..25 digits of 9.., 1.., 8.., 1234567890..} each in the forms m -m +m 0m 00m m.0 m.5 -m.25 m. ' m' 'm ' me0 mE+0 -me-1, and the texts {%s}; each text bound to [0], to bare x and to [x] in each of the formulas {%s}; every ordered pair of a pool of %d texts bound to [0] and x in {%s}; oracle: error marker / nearest float64 on the variable alone, the value of the independent parse on the other formulas, and the identical output when the text is written in place as a constant (negative values parenthesised): demanded for plain decimals; for a text of unsettled reading that the tree read as a number when bound (inf/nan spellings, exponents, hexadecimal floats, digit separators, .5 ...; not integers with a redundant leading zero, which have a decimal and an octal reading) the constant form may be rejected at compile time but when it compiles it must give that same number (no key of that name is bound: a token looked up as a variable gives the error marker) - signature C19/binding/constant-vs-variable/unsettled-spelling/<class>",
 		len(mags), pows, strings.Join(q, " "), strings.Join(bindContexts1, " ; "), len(bindPairPool(quick)), strings.Join(bindContexts2, " ; "))
 }
